@@ -9,7 +9,7 @@ from hypothesis import strategies as st
 
 from .. import gen, model
 from ..cliutil import run_cli
-from ..core import Ctx, Violation, call, check, per_shard, run_enumerated, run_given
+from ..core import Ctx, Violation, call, check, per_shard, run_enumerated, enumerated_part, run_given, given_part, machine_part, run_parts
 
 PID = "C20"
 LEVEL = "exploration"
@@ -379,15 +379,12 @@ def replay(ctx: Ctx, case):
 
 def run(ctx: Ctx):
     q = ctx.tier == "quick"
-    if not run_enumerated(ctx, "binnify-enum", enum_binnify(ctx), check_binnify):
-        return
+    parts = []
+    parts.append(enumerated_part(ctx, "binnify-enum", enum_binnify(ctx), check_binnify, every=100))
     ctx.exhaustive_subdomains["binnify: all single-chromosome (L<=40, w<=45)"] = 40 * 45 // ctx.nshards
-    if not run_enumerated(ctx, "infer-enum", enum_infer(ctx), check_infer):
-        return
-    if not run_given(ctx, "binnify", binnify_cases(), check_binnify, per_shard(ctx, 4000 if q else 80000)):
-        return
-    if not run_given(ctx, "infer", infer_cases(), check_infer, per_shard(ctx, 6000 if q else 150000)):
-        return
-    if not run_given(ctx, "cli", cli_cases(), check_cli, per_shard(ctx, 600 if q else 12000)):
-        return
-    run_given(ctx, "cooler", cooler_cases(), check_cooler, per_shard(ctx, 800 if q else 20000))
+    parts.append(enumerated_part(ctx, "infer-enum", enum_infer(ctx), check_infer, every=100))
+    parts.append(given_part(ctx, "binnify", binnify_cases(), check_binnify, per_shard(ctx, 4000 if q else 80000)))
+    parts.append(given_part(ctx, "infer", infer_cases(), check_infer, per_shard(ctx, 6000 if q else 150000)))
+    parts.append(given_part(ctx, "cli", cli_cases(), check_cli, per_shard(ctx, 600 if q else 12000)))
+    parts.append(given_part(ctx, "cooler", cooler_cases(), check_cooler, per_shard(ctx, 800 if q else 20000)))
+    run_parts(ctx, parts)
